@@ -236,6 +236,23 @@ PROPS["C12"] = {
                    "the foreign master window expiry used in the silence argument is C06's"],
 }
 
+PROPS["C03"] = {
+    "streams": [{"name": "inst"}, {"name": "tlv"}, {"name": "master"}, {"name": "timed"}],
+    "model_is_spec": ["inst", "tlv", "master", "timed"],
+    "profiles_thorough": ["debug", "release"],
+    "model_profiles": ["debug"],
+    "spec_theorem": "port-level calls of the model return normally for every frame, timestamp below 2^63 ns, timer and transmit timestamp on bounded state (C03.general_receive_total … timers_total), BMCA keeps the state bounded and has no unconditional panic (bmca_keeps_bnd, bmca_failure_kinds)",
+    "rule": "every op of the inst, tlv, master and timed streams (arbitrary and structured frames of up to 2048 octets in every port "
+            "state, corrections up to ±2^63, timestamps from 0 to 2^79, TLVs around every margin, path traces up to 129 entries, all port "
+            "configurations, BMCA before any port exists, run-time setting changes) is a call that must return; compared with the model: "
+            "returned normally / panicked, after every op (debug build: overflow checks and debug assertions on). Thorough tier: the same "
+            "streams on a release build too (no panic allowed there either; the value-level properties judge wrapped results). "
+            "Independent oracle: any panic, named by its site (source file and message) and the kind of call. distinct = distinct ops",
+    "explanation": "Lean: bounded-state invariant, totality of every port-level handler on bounded state and inputs, BMCA keeps the bound, failure kinds of a BMCA run",
+    "assumptions": INST_ASSUME + ["host timestamps below 2^63 ns, frames of at most 65535 octets, |delay asymmetry| < 2^78 ns (BA), the host's filter returns mean delays it was given (recording filter): the hypotheses of the totality theorems",
+                   "the Kalman / basic filters, the clock overlay and the daemon are outside this model (C13, C18, C20)"],
+}
+
 
 def split_obs(obs):
     """(items, status, state) of an instance-stream observation line"""
@@ -284,6 +301,10 @@ def projection(pid, stream, profile):
             st = state_part(obs)
             return " ; ".join(keep) + " | " + m + " | " + st
         return f8
+    if pid == "C03":
+        def f3(op, obs):
+            return "panic" if "R panic" in obs else "returned"
+        return f3
     if pid == "C12":
         def f12(op, obs):
             items = obs.split(" | ")[0].split(" ; ")
